@@ -44,6 +44,10 @@ claim("C11", "traversal completeness with flow-to-recursion, ordered-protocol (m
       "10 walks x 10 constructors: every sub-term reaches the recursive call; in the 4 binder-aware conversions and the interner the scope protocol declare->lookup->start->body->end(->remove) holds in order, unconditionally, on the same unique; failed lookups are Err on every path; TryFrom impls own a Converter and propagate.",
       "level arithmetic under shadowing is a runtime quantity: the pairing rule is necessary for correct binding, not sufficient", "DESIGN.md §3 C11")
 
+claim("C10", "panic-site audit over the resolved MIR call graph with derived discharge of arity-indexed sites and a reviewed per-function table; guard recognition for narrowing conversions",
+      "Every unwrap/expect, panic!-family macro, Index call, bounds/overflow/division assert and panicking std/num-bigint/bitvec API reachable from Machine::run, Program::eval*, read-back and aiken_optimize_and_intern is enumerated on each run (about 870 sites); args[k] sites are discharged by the arity table, the rest must not exceed a reviewed per-function/per-kind table; every unwrapped narrowing of a builtin argument must be preceded by a two-sided range test, a bounding definition or a costing bound; the profiling array covers every builtin discriminant.",
+      "termination, stack depth, allocation failure and panics inside dependencies (blst, secp256k1, num-bigint, bitvec) are not decided; the code generator's own invariants on type-checked ASTs are outside the audited entry set; review-table reasons were established by reading", "DESIGN.md §3 C10", "shape+flow")
+
 
 def main():
     props = [json.loads(l) for l in open(os.path.join(HERE, "properties.jsonl"))]
